@@ -296,6 +296,7 @@ func init() {
 			}
 			hd, _ := memcached.Regular(pd)()
 			for s := 0; s < seqs; s++ {
+				crumb(fmt.Sprintf("C06 (b): a seeded sequence of calls through the batching pool (%+v, %d pooled connections) next to a direct connection, sequence %d", opts, oi+1, s), map[string]interface{}{"seed": seed})
 				for _, f := range []*fakemc.Server{fb, fd} {
 					for _, k := range f.Keys() {
 						f.Drop(k)
@@ -345,6 +346,7 @@ func init() {
 				rounds = []int{2, 16, 64}
 			}
 			for ri, n := range rounds {
+				crumb(fmt.Sprintf("C06 (c): %d concurrent callers, each with private keys, running sets / adds / deletes / multi-key gets through the batching pool (%+v, %d pooled connections), round %d", n, opts, oi+1, ri), map[string]interface{}{"seed": seed})
 				for _, k := range fb.Keys() {
 					fb.Drop(k)
 				}
